@@ -1,1 +1,2 @@
 pub mod alu;
+pub mod isa;
